@@ -35,11 +35,11 @@ class _Alg:
         self.interface = i
 
 
-def build(cx, angles, A, limits, tol=None):
+def build(cx, angles, A, limits, tol=None, ids=None):
     """real network with len(angles) stations and constraint rows A (lists of coefficients), limits"""
     Acn = acn()
     net = Acn.ChargingNetwork(**(tol or {}))
-    ids = ["S%d" % j for j in range(len(angles))]
+    ids = ["S%d" % j for j in range(len(angles))] if ids is None else ids
     for sid, ph in zip(ids, angles):
         net.register_evse(Acn.EVSE(sid, max_rate=1000), 208, ph)
     for i, row in enumerate(A):
@@ -153,7 +153,7 @@ def h_defaults_and_omitted(cx, angles, Aspec, T):
     cx.observe("b", [b_if, b_net, b_alg])
 
 
-def h_after_update(cx, angles, Aspec, T, which):
+def h_after_update(cx, angles, Aspec, T, which, remove=False):
     """history: every checker has answered once (with other, loose tolerances), then constraint `which` is replaced through the
     public update_constraint (same name, new coefficients, new limit); the three checkers are judged on the UPDATED network"""
     env.install(cx)
@@ -170,13 +170,20 @@ def h_after_update(cx, angles, Aspec, T, which):
     iface.is_feasible({ids[j]: list(Z[j]) for j in range(n)}, violation_tolerance=3.0, relative_tolerance=0.5)
     icf(Z, iface.infrastructure_info())
     iface.get_constraints()
-    new_row = [cx.real("u%d" % j, lo=-2, hi=2) for j in range(n)]
-    new_lim = cx.real("L_new", lo=0, hi=100)
-    net.update_constraint("c%d" % which, Acn.Current({ids[j]: new_row[j] for j in range(n)}), new_lim)
-    cx.tag("updated")
-    # the updated constraint is re-appended: rows and limits in the network's new order
-    A2 = [A[i] for i in range(m) if i != which] + [new_row]
-    L2 = [limits[i] for i in range(m) if i != which] + [new_lim]
+    if remove:
+        net.remove_constraint("c%d" % which)
+        cx.tag("updated")
+        A2 = [A[i] for i in range(m) if i != which]
+        L2 = [limits[i] for i in range(m) if i != which]
+        m = m - 1
+    else:
+        new_row = [cx.real("u%d" % j, lo=-2, hi=2) for j in range(n)]
+        new_lim = cx.real("L_new", lo=0, hi=100)
+        net.update_constraint("c%d" % which, Acn.Current({ids[j]: new_row[j] for j in range(n)}), new_lim)
+        cx.tag("updated")
+        # the updated constraint is re-appended: rows and limits in the network's new order
+        A2 = [A[i] for i in range(m) if i != which] + [new_row]
+        L2 = [limits[i] for i in range(m) if i != which] + [new_lim]
     X, M = sched(cx, n, T)
     strict = oracle(angles, A2, L2, X, 1e-5, 1e-7, 1 - BAND)
     loose = oracle(angles, A2, L2, X, 1e-5, 1e-7, 1 + BAND)
@@ -190,6 +197,39 @@ def h_after_update(cx, angles, Aspec, T, which):
     cx.check("after_update:limits_seen_by_schedulers", len(cons.magnitudes) == m and all(bool(eq(cons.magnitudes[i], L2[i]).weak() if cx.mode == "conc" else True) for i in range(m)))
     for i in range(m):
         cx.check("after_update:limit[%d]" % i, eq(cons.magnitudes[i], L2[i]))
+    cx.observe("b", [b_net, b_if, b_alg])
+
+
+def h_reloaded(cx, angles, Aspec, T):
+    """the network is written with the public to_json() and read back; the three checkers of the RELOADED network are judged
+    against the definition (station ids registered in an order that is not their sorted order, unequal phase angles)"""
+    env.install(cx)
+    env.install_json(cx)
+    import warnings
+    from acnportal.algorithms.utils import infrastructure_constraints_feasible as icf
+
+    Acn = acn()
+    n, m = len(angles), len(Aspec)
+    A = [list(r) for r in Aspec]
+    limits = [cx.real("L%d" % i, lo=0, hi=100) for i in range(m)]
+    ids = ["PS-10", "PS-9", "PS-2"][:n]
+    net0, _, ids = build(cx, angles, A, limits, ids=ids)
+    with warnings.catch_warnings():
+        warnings.simplefilter("ignore")
+        net = Acn.ChargingNetwork.from_json(net0.to_json())
+    cx.tag("reloaded")
+    cx.check("reload:station_order_kept", list(net.station_ids) == ids, note=str(net.station_ids))
+    sim = Acn.Simulator(net, _Alg(), Acn.EventQueue(), START, period=5, verbose=False)
+    iface = Acn.Interface(sim)
+    X, M = sched(cx, n, T)
+    strict = oracle(angles, A, limits, X, 1e-5, 1e-7, 1 - BAND)
+    loose = oracle(angles, A, limits, X, 1e-5, 1e-7, 1 + BAND)
+    b_net = bool(net.is_feasible(M))
+    sandwich(cx, "reloaded_network", b_net, strict, loose)
+    b_if = bool(iface.is_feasible({ids[j]: list(M[j]) for j in range(n)}))
+    cx.check("reloaded:interface==network", b_if == b_net)
+    b_alg = bool(icf(M, iface.infrastructure_info()))
+    sandwich(cx, "reloaded_algorithm", b_alg, strict, loose)
     cx.observe("b", [b_net, b_if, b_alg])
 
 
@@ -293,10 +333,13 @@ def jobs(tier):
         js.append(Job("defaults_omitted[ang=%s,A=%s,T=%d]" % (ang, A, T), h_defaults_and_omitted, dict(angles=ang, Aspec=A, T=T), functions=FUNCS,
                       expect_tags=("interface_mapping:accepted", "interface_mapping:rejected"), max_paths=5000, timeout=2400,
                       bounds=dict(stations=len(ang), constraints=len(A), periods=T, tolerances="network defaults 1e-5 / 1e-7"), cost=4 ** (len(A) * T)))
-    for ang, A, T, which in ([((0, 120), MIXED[2][0], 1, 0), ((30, -90, 150), MIXED[3][0], 1, len(MIXED[3][0]) - 1)] if q else
-                             [((0, 120), A_, 2, w) for A_ in MIXED[2] for w in range(len(A_))] + [((30, -90, 150), A_, 1, w) for A_ in MIXED[3][:2] for w in range(len(A_))]):
-        js.append(Job("after_update[ang=%s,A=%s,T=%d,which=%d]" % (ang, A, T, which), h_after_update, dict(angles=ang, Aspec=A, T=T, which=which), functions=FUNCS + ["acnportal.acnsim.network.charging_network.ChargingNetwork.update_constraint", "acnportal.acnsim.interface.Interface.get_constraints"],
+    for ang, A, T, which, rem in ([((0, 120), MIXED[2][0], 1, 0, False), ((30, -90, 150), MIXED[3][0], 1, len(MIXED[3][0]) - 1, False), ((30, -90, 150), MIXED[3][0], 1, 0, True)] if q else
+                                  [((0, 120), A_, 2, w, False) for A_ in MIXED[2] for w in range(len(A_))] + [((30, -90, 150), A_, 1, w, r_) for A_ in (MIXED[3][0], MIXED[3][2]) for w in range(len(A_)) for r_ in (False, True)]):
+        js.append(Job("after_%s[ang=%s,A=%s,T=%d,which=%d]" % ("remove" if rem else "update", ang, A, T, which), h_after_update, dict(angles=ang, Aspec=A, T=T, which=which, remove=rem), functions=FUNCS + ["acnportal.acnsim.network.charging_network.ChargingNetwork.update_constraint", "acnportal.acnsim.interface.Interface.get_constraints"],
                       expect_tags=("updated",), max_paths=5000, timeout=2400, bounds=dict(stations=len(ang), constraints=len(A), periods=T, history="all three checkers queried with loose tolerances, update_constraint(#%d), queried again" % which), cost=20))
+    for ang, A, T in ([((30, -90, 150), MIXED[3][0], 1)] if q else [((30, -90, 150), A_, 2) for A_ in MIXED[3]] + [((0, 120), MIXED[2][2], 2)]):
+        js.append(Job("reloaded[ang=%s,A=%s,T=%d]" % (ang, A, T), h_reloaded, dict(angles=ang, Aspec=A, T=T), functions=FUNCS + ["acnportal.acnsim.base.BaseSimObj.to_json/from_json", "acnportal.acnsim.network.charging_network.ChargingNetwork._to_dict/_from_dict"],
+                      expect_tags=("reloaded",), max_paths=5000, timeout=2400, bounds=dict(stations=len(ang), constraints=len(A), periods=T, station_ids="registered in non-sorted order", history="to_json / from_json before the queries"), cost=20))
     lin = [((30, 150), MIXED[2][0], 1, False), ((0, 120), ((0, 0),), 1, True), ((30, -90, 150), MIXED[3][2], 1, False), ((30, 150), MIXED[2][1], 2, False)] if q else \
         [(ang, A, 2, False) for ang in ((30, 150), (0, 120), (0, 0)) for A in MIXED[2]] + [((0, 120), ((0, 0),), 1, True), ((30, -90), ((0, 0),), 2, True)] + [((30, -90, 150), A, 2, False) for A in MIXED[3]]
     for ang, A, T, sc in lin:
